@@ -21,22 +21,7 @@ CFG = {}
 STATE = {}
 
 
-class NoTracing:
-    """oracle-side bookkeeping on concrete values runs untraced under CrossHair (a no-op natively)"""
-
-    def __enter__(self):
-        import sys
-        self.cm = None
-        if 'crosshair.tracers' in sys.modules:
-            from crosshair.tracers import NoTracing as NT, is_tracing
-            if is_tracing():
-                self.cm = NT()
-                self.cm.__enter__()
-
-    def __exit__(self, *a):
-        if self.cm is not None:
-            self.cm.__exit__(*a)
-        return False
+from vlib.notrace import NoTracing  # noqa: E402
 
 # ---------------------------------------------------------------------------------------------------
 # model file: path -> [bytes, mtime]
